@@ -87,13 +87,10 @@ def run_groups(groups, tag='g'):
             for op, o in zip(g.ops, gres['outcomes']):
                 c = op['_c']
                 if op['op'] == 'derive':
-                    if 'packed' in o and 'ok' not in o['packed']:
-                        records.append(dict(group=g.gid, kind='pack', c=c, value=op['_value'], outcome=o['packed']))
-                        lines.append(f"CPack {decl.cq_value(op['_value'])} {cq_outcome(o['packed'])}")
-                        continue
-                    records.append(dict(group=g.gid, kind='pack', c=c, value=op['_value'], outcome=o['packed']))
-                    lines.append(f"CPack {decl.cq_value(op['_value'])} {cq_outcome(o['packed'])}")
-                    for d in o['derived']:
+                    po = o['packed'] if 'derived' in o else o
+                    records.append(dict(group=g.gid, kind='pack', c=c, value=op['_value'], outcome=po))
+                    lines.append(f"CPack {decl.cq_value(op['_value'])} {cq_outcome(po)}")
+                    for d in o.get('derived', []):
                         raw = bytes.fromhex(d['raw'])
                         records.append(dict(group=g.gid, kind='roundtrip', c=c, raw=raw, offset=d['offset'], outcome=d['outcome'],
                                             source_value=op['_value'], source_raw=bytes.fromhex(o['packed']['ok'])))
@@ -109,8 +106,9 @@ def run_groups(groups, tag='g'):
                     records.append(dict(group=g.gid, kind='default', c=c, value=op['_value'], outcome=o))
                     lines.append(f"CDefault {decl.cq_value(op['_value'])} {cq_outcome(o)}")
             text.append(f"Definition T{g.gid} : list (cid * pclass) := {decl.cq_table(g.table)}.\n")
-            text.append(f"Definition C{g.gid} : list pcase := [\n" + ";\n".join(lines) + "\n].\n")
-            calls.append(f"check_group {'true' if host else 'false'} {base} T{g.gid} C{g.gid}")
+            for k, part in enumerate(shard(lines, 120)):
+                text.append(f"Definition C{g.gid}_{k} : list pcase := [\n" + ";\n".join(part) + "\n].\n")
+                calls.append(f"check_group {'true' if host else 'false'} {base + 120 * k} T{g.gid} C{g.gid}_{k}")
         text.append("Eval vm_compute in (" + " ++ ".join(calls) + ").\n")
         files.append((f"{tag}_{si}", "".join(text)))
     outs = coq_eval_files(files)
